@@ -1,15 +1,36 @@
-"""Property -> verification units. Read by bin/check."""
+"""Property -> verification units. Read by bin/check.
+
+A Kani harness entry: name (fully qualified), tiers, unwind is part of the harness source,
+`bounded` (label, present => never counted as an unbounded proof), `finding` (id in KNOWN_FINDINGS.json;
+the harness is expected to fail exactly in the listed way while the finding is open), `functions`
+(real functions of /repo it puts under contract).
+"""
 
 HDR = 'datastructures::messages::header::verif_kani::'
 MSG = 'datastructures::messages::verif_kani_msg::'
+S = 'port::verif_kani::slave_h::'
+M = 'port::verif_kani::master_h::'
+B = 'port::verif_kani::bmca_h::'
+A = 'port::verif_kani::announce_h::'
+D = 'port::verif_kani::dispatch_h::'
+F = 'bmc::foreign_master::verif_fm::'
+C = 'bmc::dataset_comparison::verif_cmp::'
+Q = 'bmc::bmca::verif_bmca::'
+I = 'ptp_instance::verif_inst::'
+KS = 'filters::kalman::verif_servo::'
+KB = 'filters::basic::verif_basic::'
+ACT = 'port::actions::verif_act::'
+SEQ = 'port::sequence_id::verif_seq::'
 
 # module file (relative to repo root) -> [(module name, harness file under kani/src)]
 INJECT = {
     'statime/src/lib.rs': [('verif_gen', 'gen.rs')],
     'statime/src/datastructures/messages/header.rs': [('verif_kani', 'header.rs')],
     'statime/src/datastructures/messages/mod.rs': [('verif_kani_msg', 'messages.rs')],
+    'statime/src/datastructures/common/tlv.rs': [('verif_tlv', 'tlv_mod.rs')],
     'statime/src/port/mod.rs': [('verif_kani', 'port.rs')],
     'statime/src/port/sequence_id.rs': [('verif_seq', 'seq.rs')],
+    'statime/src/port/actions.rs': [('verif_act', 'actions.rs')],
     'statime/src/time/duration.rs': [('verif_bits', 'time_dur.rs')],
     'statime/src/time/instant.rs': [('verif_bits', 'time_inst.rs')],
     'statime/src/time/mod.rs': [('verif_time', 'time_mod.rs')],
@@ -19,76 +40,319 @@ INJECT = {
     'statime/src/ptp_instance.rs': [('verif_inst', 'instance.rs')],
     'statime/src/filters/kalman.rs': [('verif_servo', 'kalman.rs')],
     'statime/src/filters/basic.rs': [('verif_basic', 'basic.rs')],
-    'statime/src/port/actions.rs': [('verif_act', 'actions.rs')],
-    'statime/src/datastructures/common/tlv.rs': [('verif_tlv', 'tlv_mod.rs')],
+}
+
+_MODFILES = {
+    'datastructures::messages::header::verif_kani': ('statime/src/datastructures/messages/header.rs', 'header.rs'),
+    'datastructures::messages::verif_kani_msg': ('statime/src/datastructures/messages/mod.rs', 'messages.rs'),
+    'port::verif_kani::slave_h': ('statime/src/port/mod.rs', 'port.rs'),
+    'port::verif_kani::master_h': ('statime/src/port/mod.rs', 'port.rs'),
+    'port::verif_kani::bmca_h': ('statime/src/port/mod.rs', 'port.rs'),
+    'port::verif_kani::announce_h': ('statime/src/port/mod.rs', 'port.rs'),
+    'port::verif_kani::dispatch_h': ('statime/src/port/mod.rs', 'port.rs'),
+    'port::sequence_id::verif_seq': ('statime/src/port/sequence_id.rs', 'seq.rs'),
+    'port::actions::verif_act': ('statime/src/port/actions.rs', 'actions.rs'),
+    'bmc::foreign_master::verif_fm': ('statime/src/bmc/foreign_master.rs', 'foreign_master.rs'),
+    'bmc::dataset_comparison::verif_cmp': ('statime/src/bmc/dataset_comparison.rs', 'dataset_comparison.rs'),
+    'bmc::bmca::verif_bmca': ('statime/src/bmc/bmca.rs', 'bmc_bmca.rs'),
+    'ptp_instance::verif_inst': ('statime/src/ptp_instance.rs', 'instance.rs'),
+    'filters::kalman::verif_servo': ('statime/src/filters/kalman.rs', 'kalman.rs'),
+    'filters::basic::verif_basic': ('statime/src/filters/basic.rs', 'basic.rs'),
 }
 
 
 def module_file_for(modpath):
-    """harness module path -> (repo file, harness source)"""
-    table = {
-        'datastructures::messages::header::verif_kani': ('statime/src/datastructures/messages/header.rs', 'header.rs'),
-        'datastructures::messages::verif_kani_msg': ('statime/src/datastructures/messages/mod.rs', 'messages.rs'),
-        'port::verif_kani::slave_h': ('statime/src/port/mod.rs', 'port.rs'),
-        'port::sequence_id::verif_seq': ('statime/src/port/sequence_id.rs', 'seq.rs'),
-    }
-    return table[modpath]
+    """harness module path -> (repo file, harness source that receives a replay test)"""
+    rel, src = _MODFILES[modpath]
+    # replay tests for port::verif_kani::<x> go into the sub-file of that module
+    sub = {'slave_h': 'port_slave.rs', 'master_h': 'port_master.rs', 'bmca_h': 'port_bmca.rs',
+           'announce_h': 'port_announce.rs', 'dispatch_h': 'port_dispatch.rs'}
+    last = modpath.split('::')[-1]
+    return rel, src, sub.get(last)
 
 
 def kani_contracts(pid):
     return []
 
 
-def H(prefix, name, **kw):
-    d = dict(name=prefix + name)
+QT = ('quick', 'thorough')
+TH = ('thorough',)
+
+
+def H(prefix, name, tiers=QT, **kw):
+    d = dict(name=prefix + name, tiers=tiers)
     d.update(kw)
     return d
 
 
+# ---- textual guards: stubs are only sound while these hold in /repo (lost => undecided, exit 2) ----
+TEXT_GUARDS = [
+    # (file, regex that must match, why)
+    ('statime/src/port/actions.rs',
+     r'pub\(super\) fn from\(list: ArrayVec<PortAction<\'a>, MAX_ACTIONS>\) -> Self \{\s*Self \{\s*internal: list\.into_iter\(\)\.fuse\(\),\s*tlvs: TlvSetIterator::empty\(\),\s*sender_identity: Default::default\(\),\s*\}\s*\}',
+     'PortActionIterator::from is stubbed by a recording copy of exactly this body'),
+    ('statime/src/port/slave.rs', r'\)\s*/ 2\.0,', 'the only Duration division by a float in port/slave.rs is `/ 2.0`'),
+    ('statime/src/port/slave.rs', r'\(raw_sync_offset - raw_delay_offset\) / 2\)', 'the only Duration division by an integer in port/slave.rs is `/ 2`'),
+    ('statime/src/bmc/foreign_master.rs', r'Duration::from\(announce_interval\) \* FOREIGN_MASTER_TIME_WINDOW;', 'the only Duration multiplication in bmc/foreign_master.rs is by FOREIGN_MASTER_TIME_WINDOW'),
+    ('statime/src/bmc/foreign_master.rs', r'const FOREIGN_MASTER_TIME_WINDOW: u16 = 4;', 'window constant used by the Mul stub and the spec'),
+]
+# number of `/` applied to durations in slave.rs must stay 2 (guards above name them)
+TEXT_COUNTS = [
+    ('statime/src/port/slave.rs', r'\)\s*/\s*2(\.0)?\b', 2, 'exactly two Duration divisions in port/slave.rs'),
+]
+
 GLOBAL_TRUSTED = [
     'Verus 0.2026.09.13 + Z3 (VC generation and SMT solving)',
-    'Kani 0.68 MIR->goto translation, CBMC 6.11 + CaDiCaL/Kissat',
+    'Kani 0.68 MIR->goto translation, CBMC 6.11 + CaDiCaL',
     'rustc front end shared by both tools',
 ]
 GLOBAL_ASSUMPTIONS = [
     'termination of non-loop code and absence of stack overflow are not verified by Kani',
+    'log macros are disabled (log::max_level() == Off): formatting code of log statements is not verified',
 ]
 
+KANI_STUB_TRUST = [
+    'Kani stub: Duration / TF -> bits/2 and Duration * TF -> bits*4 (only divisions by 2 / 2.0 and the multiplication by FOREIGN_MASTER_TIME_WINDOW occur; textual guards) - guaranteed by Verus unit time (Div/Mul contracts)',
+    'Kani stub: WireTimestamp::from(Time) -> arbitrary function of the time - exact contract proved in Verus unit time',
+    'Kani stub: Interval::as_core_duration, core::time::Duration::{mul_f64, from_secs_f64} -> arbitrary duration (CBMC powi is inexact; no Kani verdict depends on a timer value)',
+    'Kani stub: PortActionIterator::from -> identical construction + recording (textual guard on the original body; c10_action_iterator_yields_list_then_ends proves the iterator yields exactly the list)',
+    'Kani stub: Message::serialize -> returns wire_size and records the message (port units compare emitted frames as messages; the byte encoding is the C04 obligations c04_message_serialize_layout / header / bodies)',
+    'test doubles honouring the public trait contracts: RecFilter, RecClock (may fail at any call), AnyRng, AnyAccept, ChkLock, AnyProvider',
+]
+
+PORT_ASSUME = [
+    'port representation invariant as precondition: BMCA identity = port identity; no completed exchange left stored (re-established by every handler: obligations sync_valid/delay_valid/peer_valid); foreign-master table empty in port-level units (its contents are the C06 unit)',
+    'C09/C14 domain: host timestamps in [2^48, 2^63) ns, master timestamps >= 2^19 s with nanoseconds < 10^9, asymmetry in i64 ns, any 64-bit correction field',
+]
+
+_slave_fns = ['statime/src/port/slave.rs: Port::{handle_sync, handle_follow_up, handle_delay_timestamp, handle_delay_resp, handle_time_measurement, extract_measurement, send_delay_request, send_e2e_delay_request}']
+_peer_fns = ['statime/src/port/slave.rs: Port::{send_p2p_delay_request, handle_pdelay_timestamp, handle_peer_delay_response, handle_peer_delay_response_follow_up, extract_measurement}', 'statime/src/port/mod.rs: Port::set_forced_port_state']
+_master_fns = ['statime/src/port/master.rs: Port::{send_sync, handle_sync_timestamp, handle_delay_req, handle_pdelay_req, handle_pdelay_response_timestamp}', 'statime/src/datastructures/messages/mod.rs: Message::{sync, follow_up, delay_resp, pdelay_resp, pdelay_resp_follow_up, delay_req, pdelay_req}', 'statime/src/port/mod.rs: Port::handle_send_timestamp']
+
+# ------------------------------------------------------------------------------------------------ harness groups
+C09_H = [
+    H(S, 'c09_sync_two_step', functions=_slave_fns),
+    H(S, 'c09_sync_one_step'),
+    H(S, 'c09_follow_up'),
+    H(S, 'c09_delay_timestamp'),
+    H(S, 'c09_delay_resp'),
+    H(S, 'c09_send_e2e_delay_request'),
+]
+C14_H = [
+    H(S, 'c14_send_p2p_delay_request', functions=_peer_fns),
+    H(S, 'c14_pdelay_timestamp'),
+    H(S, 'c14_pdelay_resp', tiers=TH),
+    H(S, 'c14_pdelay_resp_follow_up'),
+]
+C14_FINDINGS = [
+    H(B, 'c14_finding_receipt_timeout_leaves_faulty', finding='F-C14-receipt-timeout-leaves-faulty'),
+    H(B, 'c14_finding_bmca_multiport_rule_leaves_faulty', finding='F-C14-bmca-multiport-leaves-faulty'),
+    H(B, 'c14_finding_announce_multiport_rule_leaves_faulty', finding='F-C14-announce-multiport-leaves-faulty'),
+]
+C10_H = [
+    H(SEQ, 'c10_sequence_id_generate_is_plus_one_mod_2_16', functions=['statime/src/port/sequence_id.rs: SequenceIdGenerator::{new, generate}']),
+    H(ACT, 'c10_action_iterator_yields_list_then_ends', functions=['statime/src/port/actions.rs: PortActionIterator::{from, next}']),
+    H(M, 'c10_send_sync', functions=_master_fns),
+    H(M, 'c10_follow_up_for_sync_timestamp'),
+    H(M, 'c10_delay_resp_for_delay_req'),
+    H(M, 'c10_pdelay_resp_for_pdelay_req'),
+    H(M, 'c10_pdelay_resp_follow_up_for_timestamp'),
+    H(MSG, 'c04_message_serialize_layout', functions=['statime/src/datastructures/messages/mod.rs: Message::{serialize, wire_size}']),
+]
+ANNOUNCE_TX = H(A, 'c15_send_announce_with_any_provider',
+                bounded='provider offers at most K=2 TLVs per call (arbitrary types, senders, even lengths up to the room); path trace list <= 2 entries',
+                functions=['statime/src/port/master.rs: Port::send_announce', 'statime/src/datastructures/messages/mod.rs: Message::announce', 'statime/src/datastructures/common/tlv.rs: TlvSetBuilder::{new, add, build}, Tlv::serialize'])
+ANNOUNCE_RX_PARENT = H(B, 'c11_announce_from_parent_updates_data_sets', functions=['statime/src/port/bmca.rs: Port::handle_announce', 'statime/src/datastructures/messages/announce.rs: AnnounceMessage::time_properties', 'statime/src/bmc/bmca.rs: Bmca::register_announce_message'])
+ANNOUNCE_RX_ACCEPT = H(B, 'c06_announce_accepted_effects')
+ANNOUNCE_RX_REJECT = H(B, 'c07_announce_unacceptable_or_own_is_frame')
+PATH_TRACE = H(B, 'c15_path_trace_store_and_loop_discard', tiers=TH,
+               bounded='the Announce carries exactly one TLV, a PATH_TRACE with <= 2 identities')
+RECEIPT_TIMER = H(B, 'c08_announce_receipt_timeout', functions=['statime/src/port/mod.rs: Port::{handle_announce_receipt_timer, set_forced_port_state}'])
+APPLY = H(B, 'c05_apply_decision_port_state_and_data_sets', functions=['statime/src/port/bmca.rs: Port::{set_recommended_state, set_recommended_port_state}'])
+COMPARE = [
+    H(C, 'c05_compare_matches_figures_34_35', functions=['statime/src/bmc/dataset_comparison.rs: ComparisonDataset::{compare, compare_same_identity, compare_different_identity, from_own_data, from_announce_message}, DatasetOrdering::as_ordering']),
+    H(C, 'c05_compare_is_transitive_on_consistent_sets'),
+    H(Q, 'c05_state_decision_matches_figure_33', functions=['statime/src/bmc/bmca.rs: Bmca::{calculate_recommended_state, calculate_recommended_state_low_class, calculate_recommended_state_high_class, compare_global_and_port, compare_d0_best}']),
+    H(Q, 'c05_find_best_is_a_maximum', tiers=TH, bounded='two candidates (more candidates: paper step from antisymmetry + transitivity)', functions=['statime/src/bmc/bmca.rs: Bmca::find_best_announce_message, BestAnnounceMessage::compare']),
+]
+_fm_bound = 'foreign-master table generator: <= 2 records of <= 2 messages; payload abstraction (only sender, sequence id, stepsRemoved, age are arbitrary)'
+FOREIGN = [
+    H(F, 'c06_new_list_is_valid_and_empty', functions=['statime/src/bmc/foreign_master.rs: ForeignMasterList::{new, is_announce_message_qualified, register_announce_message, step_age, take_qualified_announce_messages, get_foreign_master, get_foreign_master_mut}, ForeignMaster::{new, register_announce_message, step_age, purge_old_messages}']),
+    H(F, 'c06_qualification_rule', bounded=_fm_bound),
+    H(F, 'c06_register_preserves_valid', bounded=_fm_bound),
+    H(F, 'c06_step_age_ages_and_expires', bounded=_fm_bound),
+    H(F, 'c06_take_qualified_needs_two_messages', bounded=_fm_bound),
+    H(F, 'c06_register_at_capacity', tiers=TH, bounded='all 8 records in use, fixed payload, arbitrary newcomer'),
+    H(Q, 'c06_take_best_keeps_age_and_needs_two', bounded=_fm_bound, functions=['statime/src/bmc/bmca.rs: Bmca::{take_best_port_announce_message, reregister_announce_message}']),
+    H(F, 'c06_finding_duplicate_sequence_id_counts', finding='F-C06-duplicate-sequence-id'),
+]
+DISPATCH = [
+    H(D, 'c07_foreign_domain_version_or_malformed_is_frame', tiers=TH, functions=['statime/src/port/mod.rs: Port::{parse_and_filter, handle_event_receive, handle_general_receive, handle_general_internal}', 'statime/src/datastructures/messages/mod.rs: is_compatible']),
+    H(D, 'c07_event_message_on_general_channel_is_frame', tiers=TH),
+]
+NOT_SLAVE = H(S, 'c07_slave_handlers_when_not_slave', tiers=TH)
+SERVO = [
+    H(KS, 'c13_clamp_keeps_commanded_frequency_in_bounds', functions=['statime/src/filters/kalman.rs: clamp_adjustment, KalmanFilter::{change_frequency, steer, step, demobilize}']),
+    H(KS, 'c13_change_frequency_commands_within_bounds'),
+    H(KS, 'c13_step_only_at_or_above_threshold'),
+    H(KS, 'c13_demobilize_at_most_one_final_command'),
+    H(KB, 'c13_basic_filter_commands_are_finite', functions=['statime/src/filters/basic.rs: BasicFilter::measurement']),
+]
+INSTANCE = [
+    H(I, 'c19_instance_snapshots_equal_live_state', functions=['statime/src/ptp_instance.rs: PtpInstance::{default_ds, current_ds, parent_ds, time_properties_ds, path_trace_ds}', 'statime/src/observability/{default,parent,current}.rs: From / from_state']),
+    H(I, 'c17_instance_setters_single_write', functions=['statime/src/ptp_instance.rs: PtpInstance::{set_clock_quality, set_slave_only}']),
+]
+PORT_DS = H(B, 'c19_port_ds_matches_port', functions=['statime/src/port/mod.rs: Port::{port_ds, is_steering, is_master}'])
+MISC_PORT = [
+    H(B, 'c03_filter_update_timer', functions=['statime/src/port/mod.rs: Port::handle_filter_update_timer']),
+    H(B, 'c03_start_end_bmca_is_identity', tiers=TH, functions=['statime/src/port/mod.rs: Port::{start_bmca, end_bmca}']),
+]
+HEADER = [
+    H(HDR, 'c04_header_decode_matches_spec', functions=['statime/src/datastructures/messages/header.rs: Header::deserialize_header']),
+    H(HDR, 'c04_header_decode_short_is_error'),
+    H(HDR, 'c04_header_encode_matches_spec_and_round_trips', functions=['statime/src/datastructures/messages/header.rs: Header::serialize_header']),
+    H(HDR, 'c04_header_decode_encode_decode'),
+]
+ENUMS_BODIES = [
+    H(MSG, 'c04_enum_clock_accuracy', functions=['statime/src/datastructures/common/clock_accuracy.rs: ClockAccuracy::{from_primitive,to_primitive,cmp_numeric}']),
+    H(MSG, 'c04_enum_time_source', functions=['statime/src/datastructures/common/time_source.rs: TimeSource::{from_primitive,to_primitive}']),
+    H(MSG, 'c04_enum_tlv_type', functions=['statime/src/datastructures/common/tlv.rs: TlvType::{from_primitive,to_primitive,announce_propagate}']),
+    H(MSG, 'c04_enum_message_type_control_action', functions=['statime/src/datastructures/messages/mod.rs: MessageType::try_from', 'statime/src/datastructures/messages/control_field.rs: ControlField::{from,to_primitive}']),
+    H(MSG, 'c04_body_sync_delayreq_followup', functions=['statime/src/datastructures/messages/mod.rs: MessageBody::{deserialize,serialize,wire_size,content_type}', 'statime/src/datastructures/messages/{sync,delay_req,follow_up}.rs: {serialize_content,deserialize_content}', 'statime/src/datastructures/common/timestamp.rs: WireTimestamp::{serialize,deserialize}']),
+    H(MSG, 'c04_body_delayresp_pdelayresp_pdelayrespfollowup', functions=['statime/src/datastructures/messages/{delay_resp,p_delay_resp,p_delay_resp_follow_up}.rs: {serialize_content,deserialize_content}', 'statime/src/datastructures/common/port_identity.rs: PortIdentity::{serialize,deserialize}']),
+    H(MSG, 'c04_body_pdelayreq', functions=['statime/src/datastructures/messages/p_delay_req.rs: PDelayReqMessage::{serialize_content,deserialize_content}']),
+    H(MSG, 'c04_body_announce', functions=['statime/src/datastructures/messages/announce.rs: AnnounceMessage::{serialize_content,deserialize_content}', 'statime/src/datastructures/common/clock_quality.rs: ClockQuality::{serialize,deserialize}']),
+    H(MSG, 'c04_body_signaling_management_self_consistent'),
+    H(MSG, 'c04_message_serialize_layout', functions=['statime/src/datastructures/messages/mod.rs: Message::{serialize, wire_size}']),
+]
+
+
+def th(h):
+    """same harness, thorough tier only"""
+    d = dict(h); d['tiers'] = TH; return d
+
+
 PROPS = {
+    'C03': dict(
+        verus=['framing'],
+        kani=[
+            # quick: one representative of every operation family (each harness checks panic/overflow/bounds/assert
+            # freedom of everything it executes); thorough: every harness of every unit
+            H(S, 'c09_sync_one_step'), H(S, 'c09_delay_resp'), H(S, 'c14_pdelay_timestamp'),
+            H(M, 'c10_delay_resp_for_delay_req'), H(M, 'c10_follow_up_for_sync_timestamp'),
+            ANNOUNCE_RX_PARENT, ANNOUNCE_RX_ACCEPT, RECEIPT_TIMER, APPLY, ANNOUNCE_TX,
+            H(F, 'c06_register_preserves_valid', bounded=_fm_bound), H(F, 'c06_step_age_ages_and_expires', bounded=_fm_bound),
+        ] + MISC_PORT[:1] + [th(h) for h in (C09_H + C14_H + C10_H + [PATH_TRACE, NOT_SLAVE] + DISPATCH + MISC_PORT[1:] + FOREIGN[:7] + INSTANCE + COMPARE)
+                            if h['name'] not in (S + 'c09_sync_one_step', S + 'c09_delay_resp', S + 'c14_pdelay_timestamp', M + 'c10_delay_resp_for_delay_req', M + 'c10_follow_up_for_sync_timestamp', F + 'c06_register_preserves_valid', F + 'c06_step_age_ages_and_expires')],
+        assumptions=PORT_ASSUME + [
+            'C03 is the conjunction of "returns normally and re-establishes the invariant" over every contracted operation: CBMC checks arithmetic overflow (irrespective of build profile), shift overflow, index/slice bounds, unwrap/expect, assert!/debug_assert!/unreachable!, ArrayVec capacity panics, division by zero in every harness; by induction over calls this covers every call order from states satisfying the invariant',
+            'timestamps below 2^48 ns combined with large correction fields (Time +- Duration under/overflow on wire-controlled operands) are outside the verified domain: see DESIGN section 7 (not decided, reported as an observation)',
+            'Kalman matrix updates (float) are outside C03\'s Kani units; BasicFilter and the servo leaves are under C13',
+        ],
+    ),
+    'C04': dict(
+        verus=['framing'],
+        kani=HEADER + ENUMS_BODIES,
+        assumptions=['Verus framing unit assumes the header/body codec contracts (total, prefix-only dependence, sizes) that the Kani header/bodies harnesses of this same check prove on the real functions'],
+    ),
+    'C05': dict(
+        verus=[],
+        kani=COMPARE + [APPLY],
+        assumptions=['the composition over the loops of PtpInstanceState::bmca (Ebest = max over ports, per-port decision, application) is a paper step over the three machine-checked contracts compare / decide / apply; order independence follows from antisymmetry + transitivity on consistent data sets',
+                     'consistency precondition for transitivity: equal grandmasterIdentity => equal grandmaster attributes, same receiver clock, sender != receiver (without it the IEEE comparison itself is cyclic)'] + PORT_ASSUME[:1],
+    ),
+    'C06': dict(
+        verus=[],
+        kani=FOREIGN + [ANNOUNCE_RX_ACCEPT],
+        assumptions=['whole-history clauses are per-step contracts: ages grow by the BMCA step and messages reaching 4 intervals are purged (expiry); the next sequence id incl. 65535 -> 0 is accepted and the chosen Erbest is put back with its age (steadily announcing master is kept); the temporal conclusions are paper steps',
+                     'payload abstraction and 2x2 bound of the table generator (see bounded)'],
+    ),
+    'C07': dict(
+        verus=[],
+        kani=[ANNOUNCE_RX_REJECT, H(S, 'c09_sync_two_step'), H(S, 'c09_follow_up'), H(S, 'c09_delay_resp'), NOT_SLAVE] + DISPATCH,
+        assumptions=PORT_ASSUME[:1] + ['two-run non-interference follows from single-run frames plus determinism: an input that leaves the complete view (port state, exchange records, sequence generators, RNG draws, filter and clock records, foreign-master digest, all data sets) equal to the pre-state and yields no action can be deleted from any history',
+                                       'invariant used: the parent of a Slave port is acceptable and is not the port itself (established by the S1 application)'],
+    ),
+    'C08': dict(
+        verus=[],
+        kani=[RECEIPT_TIMER, APPLY, H(M, 'c10_send_sync'), H(M, 'c10_delay_resp_for_delay_req'), H(S, 'c09_send_e2e_delay_request'),
+              H(Q, 'c05_state_decision_matches_figure_33'), th(H(M, 'c10_follow_up_for_sync_timestamp')), th(ANNOUNCE_TX), th(NOT_SLAVE)],
+        assumptions=PORT_ASSUME[:1] + ['"at most one slave port" is the paper composition of: S1 only for the port whose Erbest *is* Ebest including the receiving port identity (c05_state_decision...), distinct port identities, and every other decision leaving or not entering Slave (c05_apply...)',
+                                       'a filter that has only seen peer-delay measurements not touching the clock is not decided (Kalman float internals)'],
+    ),
+    'C09': dict(
+        verus=['time'],
+        kani=C09_H,
+        assumptions=PORT_ASSUME,
+    ),
+    'C10': dict(
+        verus=['time'],
+        kani=C10_H,
+        assumptions=PORT_ASSUME[:1] + ['"origin + correction = transmit timestamp to 2^-16 ns" is the cross-tool lemma: Kani: frame carries WireTimestamp::from(ts) and correction subnano(ts); Verus: c16_wire_round_trip'],
+    ),
+    'C11': dict(
+        verus=[],
+        kani=[ANNOUNCE_RX_PARENT, ANNOUNCE_TX, APPLY, H(I, 'c17_instance_setters_single_write')],
+        assumptions=PORT_ASSUME[:1] + ['"shows up in the next Announce" is the composition of the data-set update contracts with the Announce-contents contract (both machine-checked); the composition itself is a paper step'],
+    ),
+    'C12': dict(
+        verus=[],
+        kani=[APPLY, RECEIPT_TIMER, H(M, 'c10_send_sync'), H(S, 'c09_send_e2e_delay_request'), H(S, 'c14_send_p2p_delay_request'), ANNOUNCE_RX_ACCEPT, th(ANNOUNCE_TX)],
+        assumptions=PORT_ASSUME[:1] + ['safety core only: every state-changing operation requests the timers the new state needs (needs(post) minus needs(pre) is a subset of the requested timers), every periodic sender re-arms its own timer, every accepted Announce re-arms the receipt timer; the temporal conclusion (within a bounded number of intervals ... indefinitely) is a paper argument under host obedience and is NOT machine-checked',
+                                       'open: recovery from Faulty (extract_measurement -> Listening) requests no timer; it relies on timers armed before the fault (see C14 findings)'],
+    ),
+    'C13': dict(
+        verus=[],
+        kani=SERVO + [RECEIPT_TIMER],
+        assumptions=['scope: one call from an estimator state without NaN/inf; that NaN-freedom is an invariant of arbitrary measurement trajectories is not proved (floating point, whole history)',
+                     'configuration: positive finite thresholds, bounds <= 10^12 ppm; |estimated frequency error| <= 1',
+                     'matrix updates (absorb_*_steer) are stubbed out: they have no access to the clock'],
+    ),
+    'C14': dict(
+        verus=['time'],
+        kani=C14_H + C14_FINDINGS + [th(H(M, 'c10_pdelay_resp_for_pdelay_req')), th(H(M, 'c10_pdelay_resp_follow_up_for_timestamp'))],
+        assumptions=PORT_ASSUME,
+    ),
+    'C15': dict(
+        verus=['tlv'],
+        kani=[ANNOUNCE_TX, PATH_TRACE, ANNOUNCE_RX_ACCEPT, H(MSG, 'c04_enum_tlv_type')],
+        assumptions=PORT_ASSUME[:1] + ['daemon side (statime-linux TlvForwarder over a tokio broadcast channel): assumed contract "next_if_smaller(m) returns a TLV of size <= m, each at most once per receiver"; not verified',
+                                       'ForwardTLV actions: the iterator yields the TLVs of the accepted Announce that satisfy announce_propagate (Verus tlv unit: TlvSetIterator::next, TlvType::announce_propagate); with_forward_tlvs is only reached on the accepted path (c06_announce_accepted_effects / c07_announce_unacceptable...)'],
+    ),
     'C16': dict(
         verus=['time'],
         kani=[],
-        exec=[dict(name='c16_log_interval', label='enumerated by execution: all 256 i8 log-interval values (191 in the representable/defined range n <= 65) on the real functions, compared with exact integers; not deductive')],
+        exec=[dict(name='c16_log_interval', label='enumerated by execution: all i8 log-interval values n <= 65 on the real functions, compared with exact integers; not deductive')],
         assumptions=[
-            'contracts of the `fixed` crate operations (shim/fixed.rs) are assumed, not verified: + - neg abs from_bits to_bits frac to_num to_fixed lossy_into lossless_try_into as exact integer formulas on bit patterns with representability preconditions',
-            'f64 -> fixed conversions are uninterpreted in Verus; the log-interval clause (2^n s) is decided by executing the real function on all 256 i8 inputs (labelled enumerated, not deductive)',
+            'contracts of the `fixed` crate operations (shim/fixed.rs) are assumed, not verified: + - * / % neg abs from_bits to_bits frac to_num to_fixed lossy_into lossless_try_into as exact integer formulas on bit patterns with representability preconditions',
+            'f64 -> fixed conversions are uninterpreted in Verus; the log-interval clause (2^n s) is decided by executing the real function on all inputs (labelled enumerated, not deductive)',
         ],
+    ),
+    'C17': dict(
+        verus=[],
+        kani=INSTANCE + [ANNOUNCE_RX_PARENT, APPLY, H(M, 'c10_send_sync'), H(S, 'c09_send_e2e_delay_request'), RECEIPT_TIMER, ANNOUNCE_TX,
+                         th(H(M, 'c10_delay_resp_for_delay_req')), th(H(M, 'c10_pdelay_resp_for_pdelay_req')), th(H(S, 'c14_send_p2p_delay_request')), th(ANNOUNCE_RX_ACCEPT), th(ANNOUNCE_RX_REJECT)] + [th(h) for h in DISPATCH],
+        assumptions=PORT_ASSUME[:1] + ['every harness runs over ChkLock, a PtpInstanceStateMutex that asserts acquisition depth 0 on every with_ref/with_mut; a guard cannot outlive a call (closure scoped), so "no operation nests an acquisition, from every valid state and input" is the all-histories statement',
+                                       'atomicity of snapshots: each data-set update is one write acquisition (counted), each getter one read acquisition (counted); std::sync::RwLock / RefCell provide the mutual exclusion; no thread interleaving is explored (Kani has no threads)',
+                                       'PtpInstance::bmca holds one with_mut and passes data sets by reference: set_recommended_state performs 0 acquisitions (counted in c05_apply...)'],
     ),
     'C18': dict(
         verus=['overlay'],
         kani=[],
         assumptions=[
-            'f64 arithmetic and f64->fixed conversion are uninterpreted in Verus (ppm is seen only through f64_scaled(ppm, 32)); the rate law is therefore proved as: reading = r + shift + fixed((r - last_sync) * ppm) / 10^6 with the exact truncation rules of the fixed crate',
+            'f64 arithmetic and f64->fixed conversion are uninterpreted in Verus (ppm is seen only through f64_scaled(ppm, 32)); the rate law is proved as: reading = r + shift + fixed((r - last_sync) * ppm) / 10^6 with the exact truncation rules of the fixed crate',
             'the underlying clock reads within [0, 2^48 s); readings and intermediates representable (stated as preconditions)',
             'contracts of Time/Duration operators are those verified in unit time (same extracted items)',
         ],
     ),
-    'C04': dict(
-        verus=['framing'],
-        kani=[
-            H(HDR, 'c04_header_decode_matches_spec', functions=['statime/src/datastructures/messages/header.rs: Header::deserialize_header']),
-            H(HDR, 'c04_header_decode_short_is_error'),
-            H(HDR, 'c04_header_encode_matches_spec_and_round_trips', functions=['statime/src/datastructures/messages/header.rs: Header::serialize_header']),
-            H(HDR, 'c04_header_decode_encode_decode'),
-            H(MSG, 'c04_enum_clock_accuracy', functions=['statime/src/datastructures/common/clock_accuracy.rs: ClockAccuracy::{from_primitive,to_primitive,cmp_numeric}']),
-            H(MSG, 'c04_enum_time_source', functions=['statime/src/datastructures/common/time_source.rs: TimeSource::{from_primitive,to_primitive}']),
-            H(MSG, 'c04_enum_tlv_type', functions=['statime/src/datastructures/common/tlv.rs: TlvType::{from_primitive,to_primitive,announce_propagate}']),
-            H(MSG, 'c04_enum_message_type_control_action', functions=['statime/src/datastructures/messages/mod.rs: MessageType::try_from', 'statime/src/datastructures/messages/control_field.rs: ControlField::{from,to_primitive}']),
-            H(MSG, 'c04_body_sync_delayreq_followup', functions=['statime/src/datastructures/messages/mod.rs: MessageBody::{deserialize,serialize,wire_size,content_type}', 'statime/src/datastructures/messages/sync.rs: SyncMessage::{serialize_content,deserialize_content}', 'statime/src/datastructures/messages/delay_req.rs: DelayReqMessage::{serialize_content,deserialize_content}', 'statime/src/datastructures/messages/follow_up.rs: FollowUpMessage::{serialize_content,deserialize_content}', 'statime/src/datastructures/common/timestamp.rs: WireTimestamp::{serialize,deserialize}']),
-            H(MSG, 'c04_body_delayresp_pdelayresp_pdelayrespfollowup', functions=['statime/src/datastructures/messages/delay_resp.rs: DelayRespMessage::{serialize_content,deserialize_content}', 'statime/src/datastructures/messages/p_delay_resp.rs: PDelayRespMessage::{serialize_content,deserialize_content}', 'statime/src/datastructures/messages/p_delay_resp_follow_up.rs: PDelayRespFollowUpMessage::{serialize_content,deserialize_content}', 'statime/src/datastructures/common/port_identity.rs: PortIdentity::{serialize,deserialize}']),
-            H(MSG, 'c04_body_pdelayreq', functions=['statime/src/datastructures/messages/p_delay_req.rs: PDelayReqMessage::{serialize_content,deserialize_content}']),
-            H(MSG, 'c04_body_announce', functions=['statime/src/datastructures/messages/announce.rs: AnnounceMessage::{serialize_content,deserialize_content}', 'statime/src/datastructures/common/clock_quality.rs: ClockQuality::{serialize,deserialize}']),
-            H(MSG, 'c04_body_signaling_management_self_consistent'),
-        ],
+    'C19': dict(
+        verus=['metrics_bool'],
+        kani=INSTANCE[:1] + [PORT_DS],
+        assumptions=['claimed clauses: (a) observation snapshots equal the live data sets and port state, (b) booleans are exported as 1/0. NOT decided: the serde/JSON hop, metric-name <-> value association, Prometheus exposition syntax, HTTP Content-Length (String/fmt/serde reasoning is outside both verifiers)'],
     ),
 }
+
+for _p in PROPS.values():
+    if _p.get('kani'):
+        _p.setdefault('assumptions', [])
+        _p['trusted_extra'] = KANI_STUB_TRUST
